@@ -4,6 +4,10 @@ mod exec;
 mod config;
 mod envdir;
 mod shellstate;
+mod markdown;
+mod yamlcfg;
+mod capture;
+mod render;
 
 use common::*;
 use std::sync::Mutex;
@@ -37,6 +41,10 @@ fn main() {
             "C16" => config::replay(&prop, &r),
             "C18" => envdir::replay(&prop, &r),
             "C12" => shellstate::replay(&prop, &r),
+            "C06" => markdown::replay(&prop, &r),
+            "C17" => yamlcfg::replay(&prop, &r),
+            "C13" => capture::replay(&prop, &r),
+            "C19" => render::replay(&prop, &r),
             _ => { eprintln!("no replay for {prop}"); false }
         };
         std::process::exit(if ok { 0 } else { 1 });
@@ -49,6 +57,10 @@ fn main() {
         "C16" => config::run(&ctx, &prop),
         "C18" => envdir::run(&ctx, &prop),
         "C12" => shellstate::run(&ctx, &prop),
+        "C06" => markdown::run(&ctx, &prop),
+        "C17" => yamlcfg::run(&ctx, &prop),
+        "C13" => capture::run(&ctx, &prop),
+        "C19" => render::run(&ctx, &prop),
         _ => { eprintln!("unknown property {prop}"); std::process::exit(2); }
     }
     let rep = ctx.report.lock().unwrap();
